@@ -1110,6 +1110,9 @@ class Font(BaseObject):
 
         This will post *Font.GuidelinesChanged* and *Font.Changed* notifications.
         """
+        if self._info is None:
+            # the guidelines stored in fontinfo must be read before they are edited
+            self.info
         if not isinstance(guideline, self._guidelineClass):
             guideline = self.instantiateGuideline(guidelineDict=guideline)
         assert guideline.font in (self, None), "This guideline belongs to another font."
@@ -1157,6 +1160,9 @@ class Font(BaseObject):
 
         This posts a *Font.Changed* notification.
         """
+        if self._info is None:
+            # the guidelines stored in fontinfo must be read before they are edited
+            self.info
         self.holdNotifications(note="Requested by Font.clearGuidelines.")
         for guideline in reversed(self._guidelines):
             self.removeGuideline(guideline)
